@@ -13,11 +13,11 @@ TYPES = ["Offset", "LocalTime", "LocalDate", "LocalDateTime", "AnnualDate", "Dur
 ROUND_TRIP_TOKENS = {
     "Offset": ["+", "-", "H", "HH", "m", "mm", "s", "ss", ":", "'x'", "\\:", " "],
     "LocalTime": ["H", "HH", "h", "hh", "m", "mm", "s", "ss", "fff", "ffffff", "fffffffff", "FFF", "FFFFFFFFF", ".fff", ".FFF", ";fff", ";FFFFFFFFF",
-                  "t", "tt", ":", ".", " ", "'at'", "\\h"],
+                  "t", "tt", ":", ".", " ", "'at'", "\\h", "'.'", "\\."],
     "LocalDate": ["yyyy", "uuuu", "uuu", "uu", "u", "M", "MM", "MMM", "MMMM", "d", "dd", "ddd", "dddd", "g", "gg", "c", "/", "-", " ", "'of'", ",", "\\d"],
     "AnnualDate": ["M", "MM", "MMM", "MMMM", "d", "dd", "/", "-", " ", "'of'"],
 }
-ROUND_TRIP_TOKENS["Duration"] = ["D", "DD", "H", "HH", "h", "hh", "M", "MM", "m", "mm", "S", "SS", "s", "ss", "+", "-", ":", ".", " ", "'d'",
+ROUND_TRIP_TOKENS["Duration"] = ["D", "DD", "H", "HH", "h", "hh", "M", "MM", "m", "mm", "S", "SS", "s", "ss", "+", "-", ":", ".", " ", "'d'", "'.'", "\\.",
                                  "fff", "fffffffff", "FFF", "FFFFFFFFF", ".fff", ".FFF", ".FFFFFFFFF"]
 ROUND_TRIP_TOKENS["Instant"] = ["uuuu", "uuu", "uu", "yyyy", "MM", "M", "dd", "d", "HH", "H", "mm", "m", "ss", "s", "fff", "FFFFFFFFF", ";FFF", ".fff", "'T'", "'Z'", ":", "-", "/", " "]
 # embedded patterns: the spec sees the inner tokens spliced in (an embedded pattern captures exactly what its inner fields capture)
